@@ -13,6 +13,7 @@ import (
 type Config struct {
 	HomeBits   int  `json:"home_bits"`
 	NFBits     int  `json:"nf_bits"`
+	NFLow      bool `json:"nf_low,omitempty"` // the netfilter subnet is the first (not the last) subnet of NFBits inside home: same network address as home, router inside it
 	HostLLA    bool `json:"host_lla"`
 	HostGUA    bool `json:"host_gua"`
 	ProbeMin   int  `json:"probe_min"`
@@ -96,10 +97,16 @@ func NewUniverse(c Config) *Universe {
 	u.HomeBcast = hb
 	// the netfilter subnet is the last subnet of NFBits inside home
 	nfBase := netip.PrefixFrom(hb, c.NFBits).Masked().Addr()
+	if c.NFLow {
+		nfBase = u.Home.Addr()
+	}
 	u.NF = netip.PrefixFrom(nfBase, c.NFBits)
 	u.NFBcast = lastAddr(u.NF)
 	u.HostIP = AddN(nfBase, 1)
 	u.RouterIP = AddN(u.Home.Addr(), 1)
+	if c.NFLow {
+		u.HostIP = AddN(nfBase, 2) // +1 is the router
+	}
 	u.MACs[MOwn] = fb.MAC{0x02, 0, 0, 0, 0, 0x01}
 	u.MACs[MRouter] = fb.MAC{0x02, 0, 0, 0, 0, 0x02}
 	for i := 0; i < 5; i++ {
@@ -130,11 +137,14 @@ func NewUniverse(c Config) *Universe {
 	// a handful of home addresses below the netfilter subnet and a few inside it
 	for i := 2; i <= 6; i++ {
 		a := AddN(u.Home.Addr(), i)
+		if c.NFLow { // home addresses outside the netfilter subnet are above it
+			a = AddN(u.NFBcast, i-1)
+		}
 		if u.Home.Contains(a) && a != u.HomeBcast && a != u.HostIP && a != u.RouterIP {
 			add(a, fmt.Sprintf("home+%d", i))
 		}
 	}
-	for i := 2; i <= 4; i++ {
+	for i := 2; i <= 5; i++ {
 		a := AddN(u.NF.Addr(), i)
 		if u.NF.Contains(a) && a != u.NFBcast && a != u.HostIP && a != u.RouterIP {
 			add(a, fmt.Sprintf("nf+%d", i))
